@@ -1,5 +1,6 @@
 import LyModel.Base
 import LyModel.Val.Model
+import LyModel.Generated.ValExt
 /-!
 # ietf-yang-types:date-and-time (component `Val`, property C03) — model of `src/plugins_types/date_and_time.c`
 
@@ -110,17 +111,34 @@ def gmtime (t : Int) : Tm :=
 
 /-! ## `ly_time_str2time` -/
 
+/-- the two repairs of the zone part the model is parametrised by (read off the source by `tools/extractors/valx.py`):
+    `signChar` — the minutes are negative also when the zone starts with `-` (hours `-00`, F415); `lower` — hours below -23 are refused
+    (F416) -/
+structure ZoneCfg where
+  signChar : Bool
+  lower : Bool
+  deriving DecidableEq, Repr
+
+/-- the tree the model was generated from -/
+def zoneCfg : ZoneCfg := ⟨Generated.dtZoneSignFromChar, Generated.dtZoneHourLowerBound⟩
+/-- the pinned tree -/
+def zonePinned : ZoneCfg := ⟨false, false⟩
+/-- both repairs -/
+def zoneRepaired : ZoneCfg := ⟨true, true⟩
+
 /-- the zone part: `Z` / `z`, or `strtol` hours, `:`, `strtol` minutes; result = shift in seconds -/
-def zoneShift (z : Bytes) : Except DErr Int :=
+def zoneShiftWith (c : ZoneCfg) (z : Bytes) : Except DErr Int :=
   if z.head? == some 90 || z.head? == some 122 then .ok 0
   else
     let r := strtol z
-    if r.1 > 23 then .error .ZoneHour
+    if r.1 > 23 || (c.lower && r.1 < -23) then .error .ZoneHour
     else if r.2.head? != some 58 then .error .ZoneHour
     else
       let shm := (strtol (r.2.drop 1)).1
       if shm < 0 || shm > 59 then .error .ZoneMinute
-      else .ok (r.1 * 3600 + (if r.1 < 0 then -shm else shm) * 60)
+      else .ok (r.1 * 3600 + (if r.1 < 0 || (c.signChar && z.head? == some 45) then -shm else shm) * 60)
+
+def zoneShift (z : Bytes) : Except DErr Int := zoneShiftWith zoneCfg z
 
 /-- optional fraction at offset 19: `.` and the maximal run of ASCII digits (at least one); result: the digits and what follows -/
 def fraction (r : Bytes) : Except DErr (Option Bytes × Bytes) :=
@@ -135,7 +153,7 @@ def readTm (v : Bytes) : Tm :=
     sec := atoi (v.drop 17) }
 
 /-- `ly_time_str2time(value, &time, &fractions_s)` on the C string `v` -/
-def str2time (v : Bytes) : Except DErr (Int × Option Bytes) :=
+def str2timeWith (c : ZoneCfg) (v : Bytes) : Except DErr (Int × Option Bytes) :=
   if v.length ≤ 18 then .error .Short
   else
     let tm := readTm v
@@ -148,9 +166,11 @@ def str2time (v : Bytes) : Except DErr (Int × Option Bytes) :=
       match fraction (v.drop 19) with
       | .error e => .error e
       | .ok (fr, z) =>
-        match zoneShift z with
+        match zoneShiftWith c z with
         | .error e => .error e
         | .ok shift => .ok (timegm tm - shift, fr)
+
+def str2time (v : Bytes) : Except DErr (Int × Option Bytes) := str2timeWith zoneCfg v
 
 /-! ## the pattern of the typedef, as PCRE2 (UTF, UCP) matches it -/
 
@@ -235,16 +255,19 @@ structure DtVal where
 def endsUnknownTz (s : Bytes) : Bool := s.drop (s.length - 6) == [45, 48, 48, 58, 48, 48]
 
 /-- `lyplg_type_store_date_and_time`, text formats (`options` without `LYPLG_TYPE_STORE_ONLY`) -/
-def store (hints : Nat) (s : Bytes) : Except DErr DtVal :=
+def storeWith (c : ZoneCfg) (hints : Nat) (s : Bytes) : Except DErr DtVal :=
   match checkHints hints "string" with
   | none => .error .Hint
   | some _ =>
-    match str2time (cstr s) with
+    match str2timeWith c (cstr s) with
     | .error e => .error e
     | .ok (t, fr) =>
       match checkPattern s with
       | .error e => .error e
       | .ok () => .ok { time := t, frac := fr, unknownTz := endsUnknownTz s }
+
+/-- the tree the model was generated from -/
+def store (hints : Nat) (s : Bytes) : Except DErr DtVal := storeWith zoneCfg hints s
 
 /-- `lyplg_type_store_date_and_time`, `LY_VALUE_LYB`: 8 bytes `time_t` (little endian, signed), optional flag byte, optional digits -/
 def unlyb (b : Bytes) : Except DErr DtVal :=
@@ -283,12 +306,17 @@ def sortFrac (f g : Option Bytes) : Int :=
     let df := strcmp (f.getD []) (g.getD [])
     if df > 0 then 1 else if df < 0 then -1 else 0
 
-/-- `lyplg_type_sort_date_and_time`: `return dt;` converts the `double` difference to `int` — defined for a difference inside the
-    `int` range (about 68 years), `INT_MIN` (x86-64 `cvttsd2si`) beyond it -/
-def sort (a b : DtVal) : Int :=
+/-- `lyplg_type_sort_date_and_time`.  Pinned tree (`clamped = false`): `return dt;` converts the `double` difference to `int` — defined
+    for a difference inside the `int` range (about 68 years), `INT_MIN` (x86-64 `cvttsd2si`) beyond it.  Repaired (F413): the sign of
+    the difference. -/
+def sortWith (clamped : Bool) (a b : DtVal) : Int :=
   let dt := a.time - b.time
-  if dt != 0 then (if -(2 ^ 31) ≤ dt && dt < 2 ^ 31 then dt else -(2 ^ 31))
+  if dt != 0 then
+    (if clamped then (if dt < 0 then -1 else 1) else if -(2 ^ 31) ≤ dt && dt < 2 ^ 31 then dt else -(2 ^ 31))
   else sortFrac a.frac b.frac
+
+/-- the tree the model was generated from -/
+def sort (a b : DtVal) : Int := sortWith Generated.dtSortClamped a b
 
 /-- `%0<w>d` of a non-negative number -/
 def padNat (w : Nat) (n : Nat) : Bytes := zeros (w - (natDec n).length) ++ natDec n
